@@ -346,7 +346,9 @@ func (s *EtcdStore) FetchTopicConfig(ctx context.Context, topic string) (*metada
 	if len(meta.Topics) == 0 || meta.Topics[0].ErrorCode != 0 {
 		return nil, ErrUnknownTopic
 	}
-	return defaultTopicConfigFromTopic(&meta.Topics[0], int16(len(meta.Topics[0].Partitions))), nil
+	// 0: derive the replication factor from the partitions' replica lists (the
+	// partition count is not a replication factor).
+	return defaultTopicConfigFromTopic(&meta.Topics[0], 0), nil
 }
 
 // UpdateTopicConfig persists topic configuration into etcd.
